@@ -39,10 +39,31 @@ type cfg struct {
 	MaxDur    int64   `json:"max_duration"`
 	Failures  int     `json:"failures"`
 	DefaultBO bool    `json:"default_backoff"` // WithBackoff (factor 2) instead of WithBackoffFactor
+	// Replaced settings: builder calls made before the ones above which, as documented, the later call replaces
+	// ("Replaces any previously configured fixed or random delays" / "delay or backoff delay" / "jitter factor" / "jitter
+	// duration"). PriorDelay: "" | fixed | random | backoff (only with kind backoff or random); PriorJitter: the other
+	// jitter kind was configured first.
+	PriorDelay  string `json:"prior_delay,omitempty"`
+	PriorJitter bool   `json:"prior_jitter,omitempty"`
 }
 
 func (c cfg) build(onScheduled func(failsafe.ExecutionScheduledEvent[int])) retrypolicy.RetryPolicy[int] {
 	b := retrypolicy.Builder[int]().WithMaxRetries(-1)
+	switch c.PriorDelay {
+	case "fixed":
+		b.WithDelay(7 * time.Millisecond)
+	case "random":
+		b.WithRandomDelay(3*time.Millisecond, 9*time.Millisecond)
+	case "backoff":
+		b.WithBackoff(5*time.Millisecond, 11*time.Hour)
+	}
+	if c.PriorJitter {
+		if c.Jitter != 0 {
+			b.WithJitterFactor(0.9)
+		} else if c.JitterF != 0 {
+			b.WithJitter(13 * time.Hour)
+		}
+	}
 	switch c.Kind {
 	case "fixed":
 		b.WithDelay(time.Duration(c.Delay))
@@ -176,6 +197,15 @@ func genCfg(t *rapid.T, lo, hi int64) cfg {
 		}
 	case 2:
 		c.JitterF = float32(rapid.SampledFrom([]float64{0.1, 0.25, 0.5, 1, 0.01}).Draw(t, "jitterFactor"))
+	}
+	switch c.Kind {
+	case "backoff":
+		c.PriorDelay = rapid.SampledFrom([]string{"", "", "fixed", "random"}).Draw(t, "priorDelay")
+	case "random":
+		c.PriorDelay = rapid.SampledFrom([]string{"", "", "fixed", "backoff"}).Draw(t, "priorDelay")
+	}
+	if c.Jitter != 0 || c.JitterF != 0 {
+		c.PriorJitter = rapid.IntRange(0, 3).Draw(t, "priorJitter") == 0
 	}
 	c.Failures = rapid.IntRange(1, 12).Draw(t, "failures")
 	return c
